@@ -5,8 +5,6 @@ From Coq Require Import List Arith Bool.
 From RV Require Import model.Graph.
 Import ListNotations.
 
-Definition set_eqb (a b : list node) : bool := forallb (fun x => mem x b) a && forallb (fun x => mem x a) b.
-Definition eset_eqb (a b : list edge) : bool := forallb (fun x => emem x b) a && forallb (fun x => emem x a) b.
 Fixpoint enodupb (l : list edge) : bool :=
   match l with [] => true | x :: l' => negb (emem x l') && enodupb l' end.
 
